@@ -1,6 +1,6 @@
 (* C11 property theorems (statements only; proofs in C11/Proofs.v, Sched.v, Suzuki.v). *)
 From Coq Require Import ZArith QArith Qcanon List Bool Reals.
-From QV Require Import C11.Model C11.Proofs C11.Sched C11.Suzuki C11.Bonds C11.HamModel C11.HamProofs.
+From QV Require Import C11.Model C11.Proofs C11.Sched C11.Suzuki C11.Bonds C11.HamModel C11.HamProofs C11.GenProofs.
 Import ListNotations.
 Open Scope Z_scope.
 
@@ -181,6 +181,33 @@ Theorem C11_flip_is_swap_conjugation :
 Proof. intros d sites sg sg' Hsg a b X. exact (flip_swaps d sites sg sg' Hsg a b X). Qed.
 Print Assumptions C11_flip_is_swap_conjugation.
 
+(* TEBDSweepMixin.sweep (arbitrary geometry TEBD / simple update / 2D TEBD), any ordering, with
+   or without second_order_reflect: every term is exponentiated for tau times the number of
+   occurrences of its pair in the ordering (exactly tau for an ordering without repetitions), and
+   the reflected sweep is palindromic (the symmetric second-order formula) *)
+Theorem C11_generic_sweep_term_exponents :
+  forall w o reflect tau,
+  term_exponent w (sweep_gates o reflect tau) = (zq (Z.of_nat (kcount w o)) * tau)%Qc
+  /\ (NoDup o -> In w o -> term_exponent w (sweep_gates o reflect tau) = tau)
+  /\ length (sweep_gates o reflect tau) = ((if reflect then 2 else 1) * length o)%nat.
+Proof.
+  intros w o reflect tau. split; [apply sweep_term_exponent|]. split; [apply sweep_term_exponent_once|apply sweep_gates_length].
+Qed.
+Print Assumptions C11_generic_sweep_term_exponents.
+
+Theorem C11_reflected_sweep_palindromic :
+  forall o tau, rev (sweep_gates o true tau) = sweep_gates o true tau.
+Proof. exact sweep_gates_palindromic. Qed.
+Print Assumptions C11_reflected_sweep_palindromic.
+
+(* LocalHam2D / LocalHam3D: the default two-site term is added under DIRECTED bonds of the lattice
+   generator only (never under a re-ordered key), after the explicitly given terms *)
+Theorem C11_default_term_goes_under_directed_bonds :
+  forall bs H2 X, exists added, fill_default bs H2 X = H2 ++ added
+    /\ Forall (fun kv => In (fst kv) bs /\ snd kv = X) added.
+Proof. exact fill_default_spec. Qed.
+Print Assumptions C11_default_term_goes_under_directed_bonds.
+
 (* non-vacuity: concrete runs of the models *)
 Example C11_examples :
   (* update_to(10) from t = 0 with dt = 4, order 2: two full steps (merged across
@@ -193,10 +220,12 @@ Example C11_examples :
   /\ nfull 0 10 4 = 2
   /\ bonds (Build_cfg 7 true 1 0) Right = [(0, 1); (2, 3); (4, 5); (6, 0)]
   /\ bonds (Build_cfg 6 true 1 0) Left = [(5, 0); (3, 4); (1, 2)]
+  /\ sweep_order [(0, 1); (1, 2); (0, 2)] true = [(0, 1); (1, 2); (0, 2); (0, 2); (1, 2); (0, 1)]
+  /\ bonds2d 3 2 true false = [(0, 1); (0, 2); (1, 3); (2, 3); (2, 4); (3, 5); (4, 5); (4, 0); (5, 1)]
   /\ (exists t, localham 2 [((1, 0), fun r c => zq (Z.of_nat (r * 4 + c)))] [(0, fun r c => zq (Z.of_nat (r + c)))] None = Some t
         /\ map fst t = [(0, 1)]).
 Proof.
-  split; [|split; [|split; [|split]]]; try reflexivity.
+  split; [|split; [|split; [|split; [|split; [|split]]]]]; try reflexivity.
   - eexists. eexists. split; [reflexivity|]. split; [vm_compute; reflexivity|]. vm_compute. repeat split.
   - eexists. split; [vm_compute; reflexivity|]. reflexivity.
 Qed.
